@@ -91,17 +91,28 @@ theorem inv_bounce {s : M} (hI : Inv s) (a : Nat) : Inv (bounce s a) := by
   · simp only [e, if_true] at this ⊢; omega
   · simp only [e, if_false]; exact this
 
-theorem inv_assignLate {s : M} (hI : Inv s) (n : Nat) (hno : reassigns s n = false) : Inv (assignLate s n).1 := by
+theorem bounceCall_ok {s : M} (h : s.relFails = false) (a n : Nat) : bounceCall s a n = bounce s a := by
+  unfold bounceCall; simp [h]
+
+theorem releaseCall_ok (s : M) (a : Nat) (h : s.relFails = false) : releaseCall s a = release s a := by
+  unfold releaseCall; simp [h]
+
+theorem inv_assignLate {s : M} (hI : Inv s) (n : Nat) (hno : reassigns s n = false)
+    (hrf : bounces s n = true → s.relFails = false) : Inv (assignLate s n).1 := by
   unfold assignLate
   split
   · exact hI
   · rename_i a hf
     have hfree := firstFree_spec hf
     split
-    · exact inv_bounce hI a
+    · rename_i hgone
+      rw [bounceCall_ok (hrf (by simp [bounces, hf, hgone]))]
+      exact inv_bounce hI a
     · rename_i x hx
       split
-      · exact inv_bounce hI a
+      · rename_i hterm
+        rw [bounceCall_ok (hrf (by simp [bounces, hf, hx, hterm]))]
+        exact inv_bounce hI a
       · rename_i hterm
         have hxip : x.ip = none := by
           unfold reassigns at hno; rw [hx] at hno
@@ -160,14 +171,16 @@ theorem inv_assignLate {s : M} (hI : Inv s) (n : Nat) (hno : reassigns s n = fal
             · exact ⟨y, by simp [e2, hy], hip⟩
 
 
-theorem inv_assign {s : M} (hI : Inv s) (n : Nat) (hno : reassigns s n = false) : Inv (assign s n).1 := by
+theorem inv_assign {s : M} (hI : Inv s) (n : Nat) (hno : reassigns s n = false)
+    (hrf : relCalled s (.assign n) = true → s.relFails = false) : Inv (assign s n).1 := by
   unfold assign
   split
   · exact hI
-  · exact inv_assignLate hI n hno
+  · rename_i x hx
+    exact inv_assignLate hI n hno (fun hb => hrf (by simp [relCalled, hx, hb]))
 
 /-- the state after `tBegin` (the session is marked Terminating) -/
-theorem inv_tBegin {s s1 : M} {x : Sess} (hI : Inv s) {n : Nat} (h : tBegin s n = .ok (s1, x)) :
+theorem inv_tBegin {s s1 : M} {x : Sess} (_hI : Inv s) {n : Nat} (h : tBegin s n = .ok (s1, x)) :
     AMap.lookup s.sessions n = some x ∧ x.terminating = false ∧
     s1 = { s with sessions := AMap.insert s.sessions n { x with terminating := true } } := by
   unfold tBegin at h
@@ -312,17 +325,12 @@ theorem inv_mark {s : M} (hI : Inv s) {n : Nat} {x : Sess} (hx : AMap.lookup s.s
     · rename_i e; subst e; exact hI.live _ x hx
     · exact hI.live n' y h
 
-/-- the side condition of `Valid` for one operation -/
-def okOp (s : M) : Op → Prop
-  | .assign n => reassigns s n = false
-  | .aresume tag => ∀ n, AMap.lookup s.acalls tag = some n → reassigns s n = false
-  | _ => True
-
 theorem inv_step {s : M} (hI : Inv s) (op : Op) (hok : okOp s op) : Inv (step s op).1 := by
   cases op with
   | create n mac => exact inv_create hI n mac
-  | assign n => exact inv_assign hI n hok
+  | assign n => exact inv_assign hI n hok.1 hok.2
   | touch n => simp only [step]; split <;> exact hI
+  | fault on => exact ⟨hI.own, hI.parked, hI.one, hI.live, hI.once, hI.bal, hI.owned⟩
   | abegin tag n =>
     simp only [step]
     split
@@ -337,7 +345,8 @@ theorem inv_step {s : M} (hI : Inv s) (op : Op) (hok : okOp s op) : Inv (step s 
     · rename_i n hc
       have hI0 : Inv { s with acalls := AMap.erase s.acalls tag } :=
         ⟨hI.own, hI.parked, hI.one, hI.live, hI.once, hI.bal, hI.owned⟩
-      exact inv_assignLate hI0 n (hok n hc)
+      have hno : reassigns s n = false := by have := hok.1; simpa [hc] using this
+      exact inv_assignLate hI0 n hno (fun hb => hok.2 (by simp only [relCalled, hc]; exact hb))
   | term n =>
     simp only [step]
     split
@@ -358,7 +367,15 @@ theorem inv_step {s : M} (hI : Inv s) (op : Op) (hok : okOp s op) : Inv (step s 
         have := inv_release_finish hI1 hx1 (by intro t b; simp [hcalls])
         -- `tFinish` only reads mac and ip of the session object, which the mark does not change
         rw [tFinish_congr _ n x { x with terminating := true } rfl rfl]
-        exact this
+        cases hxi : x.ip with
+        | none => simp only [hxi] at this ⊢; exact this
+        | some a =>
+          -- the release call does not fail (Valid)
+          have hrf : s.relFails = false := hok.2 (by simp [relCalled, hcalls, hb, hxi])
+          simp only [hxi] at this ⊢
+          rw [releaseCall_ok]
+          · exact this
+          · exact hrf
   | tbegin tag n =>
     simp only [step]
     split
@@ -440,6 +457,8 @@ theorem inv_step {s : M} (hI : Inv s) (op : Op) (hok : okOp s op) : Inv (step s 
       have hx0 : AMap.lookup ({ s with calls := AMap.erase s.calls tag } : M).sessions n = some x := hx
       have := inv_release_finish hI0 hx0 hnocall
       simp only [hip] at this
+      have hrf : s.relFails = false := hok.2 (by simp [relCalled, hc])
+      rw [releaseCall_ok _ _ (show ({ s with calls := AMap.erase s.calls tag } : M).relFails = false from hrf)]
       have hl : AMap.lookup (release { s with calls := AMap.erase s.calls tag } a).sessions n = some x := by
         simpa [release] using hx
       simp only [hl]
@@ -451,16 +470,16 @@ theorem inv_run {s : M} (hI : Inv s) (ops : List Op) (hv : Valid s ops) : Inv (r
   | cons op ops ih =>
     simp only [run, List.foldl_cons]
     obtain ⟨h1, h2⟩ := hv
-    have hok : okOp s op := by
-      cases op <;> first | exact h1 | trivial
-    exact ih (inv_step hI op hok) h2
+    exact ih (inv_step hI op h1) h2
 
 /-! ## property theorems
 
-All of them are `_partial` in one respect: they quantify over the histories `Valid init ops`, in which
-AssignAddress never hands a second address to a LIVE session that holds one (judged when the allocator call returns).
-The complement is exactly the recorded finding KF-submgr-reassign-leak (witness theorem at the end); assignments racing
-a termination, in either order and at either unlock window, are inside `Valid`. -/
+All of them are `_partial` in two respects: they quantify over the histories `Valid init ops`, in which
+(1) AssignAddress never hands a second address to a LIVE session that holds one (judged when the allocator call returns)
+— the complement is the recorded finding KF-submgr-reassign-leak — and (2) no release call the manager makes to the
+allocator fails — the complement is the recorded finding KF-submgr-release-failed (witness theorems at the end);
+assignments racing a termination, in either order and at either unlock window, are inside `Valid`, and so is a failing
+allocator while no release call is made. -/
 
 /-- **A session ends exactly once**, whatever interleaving of terminations is applied. -/
 theorem ended_at_most_once_partial (ops : List Op) (hv : Valid init ops) (n : Nat) :
@@ -533,17 +552,17 @@ theorem KF_submgr_reassign_leak_witness :
     let s := run init [.create 1 1, .assign 1, .assign 1, .term 1]
     AMap.lookup s.sessions 1 = none ∧ count s.ended 1 = 1 ∧ AMap.lookup s.owner 2 = some 1 ∧
     ¬ Valid init [.create 1 1, .assign 1, .assign 1, .term 1] := by
-  refine ⟨by decide, by decide, by decide, ?_⟩
-  intro h
-  have := h.2.2.1
-  revert this; decide
+  refine ⟨by decide, by decide, by decide, by decide⟩
 
 /-! ### assignments racing a termination (fixed: the former finding KF-submgr-assign-race and its mirror image) -/
 
 /-- **An AssignAddress whose allocator call returns after the session was terminated (or while its termination is in
-    progress) strands nothing**: from ANY state, the held call reports failure and leaves the allocator's hand-outs,
-    the session table and the address index exactly as they were — the address it was given went straight back. -/
+    progress) strands nothing**: from ANY state in which the allocator's release works, the held call reports failure
+    and leaves the allocator's hand-outs, the session table and the address index exactly as they were — the address
+    it was given went straight back.  (With a FAILING release the hand-back is only logged: finding
+    KF-submgr-release-failed, `KF_submgr_release_failed_bounce_witness`.) -/
 theorem late_assign_strands_nothing (s : M) (tag n : Nat) (hc : AMap.lookup s.acalls tag = some n)
+    (hrf : s.relFails = false)
     (hgone : AMap.lookup s.sessions n = none ∨ ∃ x, AMap.lookup s.sessions n = some x ∧ x.terminating = true) :
     (step s (.aresume tag)).1.owner = s.owner ∧ (step s (.aresume tag)).1.sessions = s.sessions ∧
     (step s (.aresume tag)).1.byIp = s.byIp ∧
@@ -553,18 +572,18 @@ theorem late_assign_strands_nothing (s : M) (tag n : Nat) (hc : AMap.lookup s.ac
   | none => simp
   | some a =>
     rcases hgone with h | ⟨x, hx, ht⟩
-    · simp [h, bounce]
-    · simp [hx, ht, bounce]
+    · simp [h, bounce, bounceCall, hrf]
+    · simp [hx, ht, bounce, bounceCall, hrf]
 
 /-- the same for a whole AssignAddress call issued while the session's termination is parked at the allocator -/
 theorem assign_during_termination_strands_nothing (s : M) (n : Nat) (x : Sess)
-    (hx : AMap.lookup s.sessions n = some x) (ht : x.terminating = true) :
+    (hx : AMap.lookup s.sessions n = some x) (ht : x.terminating = true) (hrf : s.relFails = false) :
     (step s (.assign n)).1.owner = s.owner ∧ (step s (.assign n)).1.sessions = s.sessions ∧
     (step s (.assign n)).1.byIp = s.byIp := by
   simp only [step, assign, hx, assignLate]
   cases hf : firstFree s.owner with
   | none => simp
-  | some a => simp [hx, ht, bounce]
+  | some a => simp [ht, bounce, bounceCall, hrf]
 
 /-- the two interleavings that used to strand an address are ordinary (Valid) histories now and leave nothing behind:
     an assignment while the termination is parked, and a termination while the assignment is held in the allocator -/
@@ -575,14 +594,67 @@ theorem assign_race_fixed :
     Valid init ops' ∧ (run init ops').owner = [] ∧ AMap.lookup (run init ops').sessions 1 = none ∧
     count (run init ops').allocs 2 = 1 ∧ count (run init ops').rel 2 = 1 ∧
     (step (run init [.create 1 1, .abegin 3 1, .term 1]) (.aresume 3)).2 = .gone := by
-  refine ⟨?_, by decide, by decide, ?_, by decide, by decide, by decide, by decide, by decide⟩
-  · refine ⟨trivial, ?_, trivial, ?_, trivial, trivial⟩ <;> decide
-  · refine ⟨trivial, trivial, trivial, ?_, trivial⟩
-    decide
+  refine ⟨by decide, by decide, by decide, by decide, by decide, by decide, by decide, by decide, by decide⟩
+
+/-! ### a release that FAILS (recorded finding KF-submgr-release-failed, review item G8) -/
+
+/-- **TerminateSession forgets an address whose release failed**: from ANY state, when the allocator's release call
+    fails (it then keeps the address as handed out), the termination still reports success, deletes the session and
+    leaves the allocator's hand-outs exactly as they were: the address stays allocated to a session that no longer
+    exists, and no later call can release it (the session that knew it is gone). -/
+theorem failed_release_is_forgotten (s : M) (n : Nat) (x : Sess) (a : Nat)
+    (hx : AMap.lookup s.sessions n = some x) (hnt : x.terminating = false) (hip : x.ip = some a)
+    (hcalls : s.calls = []) (hf : s.relFails = true) :
+    (step s (.term n)).2 = .ok ∧ AMap.lookup (step s (.term n)).1.sessions n = none ∧
+    (step s (.term n)).1.owner = s.owner ∧ count (step s (.term n)).1.rel a = count s.rel a ∧
+    (step (step s (.term n)).1 (.term n)).2 = .notfound := by
+  have hb : tBegin s n = .ok ({ s with sessions := AMap.insert s.sessions n { x with terminating := true } }, x) := by
+    simp [tBegin, hx, hnt]
+  have hs : step s (.term n) =
+      (tFinish (releaseCall { s with sessions := AMap.insert s.sessions n { x with terminating := true } } a) n x, .ok) := by
+    simp only [step, hcalls, List.isEmpty_nil, Bool.not_true, Bool.false_eq_true, if_false, hb, hip]
+  rw [hs]
+  refine ⟨rfl, ?_, ?_, ?_, ?_⟩
+  · simp [tFinish]
+  · simp [tFinish, releaseCall, hf]
+  · simp [tFinish, releaseCall, hf]
+  · simp [step, tFinish, releaseCall, hf, hcalls, tBegin]
+
+/-- KF-submgr-release-failed on a concrete history: the allocator fails the release of s1's address 2; s1 ends
+    (one terminate event, no release counted), address 2 stays handed to s1 for ever, the next session gets address 3,
+    a second termination of s1 finds nothing — and the history is outside `Valid`. -/
+theorem KF_submgr_release_failed_witness :
+    let ops := [Op.create 1 1, .assign 1, .fault true, .term 1]
+    let s := run init ops
+    AMap.lookup s.sessions 1 = none ∧ count s.ended 1 = 1 ∧ AMap.lookup s.owner 2 = some 1 ∧ count s.rel 2 = 0 ∧
+    count s.relf 2 = 1 ∧ (step s (.term 1)).2 = .notfound ∧
+    AMap.lookup (run s [.fault false, .create 2 2, .assign 2]).owner 3 = some 2 ∧ ¬ Valid init ops := by
+  decide
+
+/-- the same through the hand-back path of AssignAddress (the allocator call returns after the session was
+    terminated; the manager gives the address back, the allocator refuses): stranded as well -/
+theorem KF_submgr_release_failed_bounce_witness :
+    let ops := [Op.create 1 1, .abegin 3 1, .term 1, .fault true, .aresume 3]
+    let s := run init ops
+    (step (run init [.create 1 1, .abegin 3 1, .term 1, .fault true]) (.aresume 3)).2 = .gone ∧
+    AMap.lookup s.sessions 1 = none ∧ AMap.lookup s.owner 2 = some 1 ∧ count s.relf 2 = 1 ∧ ¬ Valid init ops := by
+  decide
+
+/-- a fault switch that is on while the manager makes no release call is harmless: such histories are inside `Valid`
+    (non-vacuity of its second condition) — a session without an address is terminated, the switch goes off again,
+    a session with an address is terminated -/
+example : Valid init [.create 1 1, .fault true, .term 1, .create 2 2, .assign 2, .fault false, .term 2] ∧
+    (run init [.create 1 1, .fault true, .term 1, .create 2 2, .assign 2, .fault false, .term 2]).owner = [] := by
+  decide
+
+/-- non-vacuity of `failed_release_is_forgotten` -/
+example : let s := run init [.create 1 1, .assign 1, .fault true]
+    AMap.lookup s.sessions 1 = some { mac := 1, ip := some 2, terminating := false } ∧ s.calls = [] ∧ s.relFails = true := by
+  decide
 
 /-! non-vacuity: a concrete interleaving — A parks, B is refused, A finishes, the address is reused -/
 example : Valid init [.create 1 1, .assign 1, .tbegin 0 1, .tbegin 1 1, .tresume 0, .create 2 2, .assign 2] := by
-  refine ⟨trivial, ?_, trivial, trivial, trivial, trivial, ?_, trivial⟩ <;> decide
+  decide
 example : (step (run init [.create 1 1, .assign 1, .tbegin 0 1]) (.tbegin 1 1)).2 = .busy := by decide
 example : count (run init [.create 1 1, .assign 1, .tbegin 0 1, .tbegin 1 1, .tresume 0, .create 2 2, .assign 2]).rel 2 = 1 ∧
     AMap.lookup (run init [.create 1 1, .assign 1, .tbegin 0 1, .tbegin 1 1, .tresume 0, .create 2 2, .assign 2]).owner 2 = some 2 := by
